@@ -39,6 +39,8 @@ fn main() {
         "c11-record" => c11::record(rest),
         "c04-replay" => c04::replay(rest),
         "c04-record" => c04::record(rest),
+        "c05-replay" => c04::replay_func(rest),
+        "c05-record" => c04::record_func(rest),
         x => {
             eprintln!("unknown subcommand {}", x);
             std::process::exit(2);
